@@ -19,6 +19,7 @@ GENERATORS = [
     ("PathIOTable", "gen_pathio"),
     ("Logging", "gen_logging"),
     ("Wiring", "gen_wiring"),
+    ("UserMgr", "gen_usermgr"),
 ]
 
 
